@@ -4,7 +4,7 @@ EXTENDS PRM, Json, MCCommon
 MC_Build == EnvInt("V_BUILD", 2)
 
 Emit ==
-  (MC_Emit /\ pc' = "idle" /\ res'.kind # "none" /\ (pc = "build" \/ ncalls' # ncalls)) =>
+  (MC_Emit /\ ((EmitAll /\ Len(hist') > Len(hist) /\ hist'[Len(hist')].c = "ps") \/ (pc' = "idle" /\ res'.kind # "none" /\ (pc = "build" \/ ncalls' # ncalls)))) =>
      PrintT(<<"HIST", ToJson([planner |-> "prm", topo |-> MC_T, maxd |-> 0, rad2 |-> MC_Rad2, lvs |-> MC_Lvs,
                              bias |-> "0", seeded |-> MC_Seeded, worlds |-> worlds, probs |-> probs, build |-> MC_Build,
                              calls |-> hist'])>>)
